@@ -34,6 +34,7 @@ func (g *Gen) doCall(st *State, c *ssa.Call) *Val {
 		recv := g.val(st, cc.Value)
 		g.nilCheck(st, recv, pos, text)
 		key := ifaceKey(cc)
+		g.argsNonNil(st, c, g.P.specs[key], nil, append([]*Val{recv}, args...), cc.Method.Name())
 		if sp := g.P.specs[key]; sp != nil {
 			return g.callWithSpec(st, c, sp, nil, append([]*Val{recv}, args...), text)
 		}
@@ -47,6 +48,7 @@ func (g *Gen) doCall(st *State, c *ssa.Call) *Val {
 		if ai, isW := extByteWriters[key]; isW && g.hooks != nil && g.hooks.onExtWrite != nil && ai < len(args) {
 			g.hooks.onExtWrite(g, st, args[ai], pos, text)
 		}
+		g.argsNonNil(st, c, g.P.specs[key], fn, args, fnKey(fn))
 		if sp := g.P.specs[key]; sp != nil {
 			return g.callWithSpec(st, c, sp, fn, args, text)
 		}
@@ -65,7 +67,17 @@ func (g *Gen) doCall(st *State, c *ssa.Call) *Val {
 			}
 		}
 	}
-	// closure / function value
+	// closure / function value: the callee may be any in-repo function, so the default non-nil
+	// precondition is owed for every pointer/interface argument
+	if g.hooks != nil && g.hooks.paramsNonNil {
+		for i, a := range args {
+			if a == nil || (a.K != KPtr && a.K != KIface) || g.knownNonNil[a.S] || (isConstTerm(a.S) && a.S != "0") ||
+				strings.HasPrefix(a.S, "|G!") || strings.HasPrefix(a.S, "(|sub!") || strings.HasPrefix(a.S, "(|ea!") {
+				continue
+			}
+			g.oblige("pre@call", fmt.Sprintf("dynamic:nonnil arg%d", i), c.Pos(), st.reach, not(eq(a.S, "0")))
+		}
+	}
 	g.havocked = append(g.havocked, "dynamic call "+text)
 	g.frameCheckOpaqueCall(st, c, &ModSet{All: true}, "dynamic "+text)
 	return g.havocCall(st, c, &ModSet{All: true}, args)
